@@ -94,11 +94,14 @@ def main():
     loop_body, after = norm(st[lo:lc + 1]), norm(st[lc + 1:])
     takes = re.search(r"msg = lock_receiver\.recv\(\) =>\{ match msg\{ Some\(room\) => \{ if let Err\(_e\) =Self::process_acquired_room\( (circuit_id, )?room, acquired_lock\.clone\(\), query_service\.clone\(\), lock_service\.clone\(\), peer_service\.clone\(\), &discret_services, \) \.await \{", loop_body)
     if not takes: raise Refuse("lock branch of the select loop not recognised")
-    end_shape = (r"^let acquere = acquired_lock\.lock\(\)\.await; let mut rooms: Vec<Uid> = Vec::new\(\); for room in acquere\.iter\(\) \{ rooms\.push\(\*room\); \} "
+    # the rooms still held are copied out of acquired_lock: by a push loop or by an iterator chain
+    end_shape = (r"^let (\w+) = acquired_lock\.lock\(\)\.await; "
+                 r"(?:let mut rooms: Vec<Uid> = Vec::new\(\); for room in \1\.iter\(\) \{ rooms\.push\(\*room\); \}"
+                 r"|let rooms: Vec<Uid> = \1\.iter\(\)\.(?:copied|cloned)\(\)\.collect\(\);) "
                  r"Self::cleanup\(&lock_service, (circuit_id, )?rooms\)\.await; (.*)$")
     em = re.match(end_shape, after)
     if not em: raise Refuse("end of the connection task not recognised: " + after[:160])
-    rest = em.group(2)
+    rest = em.group(3)
     drains = bool(re.search(r"lock_receiver\.close\(\); while let Some\(room\) = lock_receiver\.recv\(\)\.await \{ lock_service\.unlock\((circuit_id, )?room\)\.await; \}", rest))
     if (not drains) and ("lock_receiver" in rest): raise Refuse("end of the connection task uses lock_receiver in an unrecognised way")
     cm = re.search(r"pub async fn cleanup\(lock_service: &RoomLockService, (circuit_id: \[u8; 32\], )?rooms: Vec<Uid>\) \{ for room in rooms \{ lock_service\.unlock\((circuit_id, )?room\)\.await; \} \}", norm(inb))
